@@ -99,7 +99,7 @@ def programs(tier, seed):
         # (macro, profile, max pending count, heavy, cheap later steps).  Real pending points in later steps only where at
         # most one branch has a later step: with two such branches CBMC needs more than the 12 GB cap (measured).
         aprofs = [("join_async", (2, 1), 2, True, False), ("join_async", (1, 2), 1, True, False), ("join_async", (1, 2, 1), 1, True, False), ("join_async", (3, 1), 1, True, False),
-                  ("try_join_async", (2, 1), 2, True, False), ("try_join_async", (1, 2), 1, True, False),
+                  ("try_join_async", (2, 1), 1, True, False), ("try_join_async", (1, 2), 1, True, False),
                   ("join_async_spawn", (1, 2), 1, True, False), ("try_join_async_spawn", (1, 2), 1, True, False), ("try_join_async_spawn", (2, 1), 1, True, False),
                   ("join_async", (2, 2), 2, True, True), ("join_async", (1, 2, 2), 1, True, True), ("join_async", (2, 2, 1), 1, True, True), ("join_async", (3, 1, 2), 1, True, True),
                   ("join_async", (3, 3), 1, True, True), ("try_join_async", (2, 2), 1, True, True), ("join_async_spawn", (2, 2), 1, True, True), ("try_join_async_spawn", (2, 2), 1, True, True)]
